@@ -450,6 +450,103 @@ class C04(Check):
             out.append({"hyd": hyd, "rule": rng.choice([360, 600, hyd]), "report": 0, "duration": dur, "start_clock": sc, "controls": ctls, "init": init})
         return out
 
+    def _leak_controls_corr(self, ctx, failures, broken):
+        """C08 window (Props/C08Window.lean): (1) the controls the REAL Junction.add_leak / Tank.add_leak register (class,
+        condition class, relation, threshold, repeat, action attribute / value, priority, control type, registration order)
+        against the model's `Leak.ctls`; (2) the real simulator's accepted times and leak activity against `runSim` on the
+        model's leak configuration, and against the window itself (on iff start <= t and not start <= end <= t)"""
+        wntr = vlib.import_wntr()
+        from wntr.network.controls import Control, SimTimeCondition, ControlAction, Comparison, _ControlType
+        rng = ctx.rng
+        n = 10 if ctx.quick else 80
+        nd = 0
+        for i in range(n):
+            hyd = rng.choice([900, 1800, 3600])
+            steps = rng.randint(3, 8)
+            dur = steps * hyd
+            s = {"hyd": hyd, "rule": rng.choice([360, 600, hyd]), "report": 0, "duration": dur, "start_clock": rng.choice([0, 3600 * 5]), "controls": [], "init": {}}
+            wn = schedgen.build_wn(wntr, s)
+            wn.add_tank("TK", elevation=40.0, init_level=3.0, min_level=0.0, max_level=50.0, diameter=30.0)
+            wn.add_pipe("PTK", "J0", "TK", length=100, diameter=0.3)
+            nodes = ["J0", "J1", "J2", "TK"]
+            leaks = []
+            for key, name in enumerate(rng.sample(nodes, rng.randint(1, 3))):
+                st = rng.choice([0, rng.randint(0, dur), rng.randint(0, steps) * hyd])
+                kind = rng.random()
+                if kind < 0.2:
+                    en = None
+                elif kind < 0.45:
+                    en = st + rng.randint(1, hyd - 1)          # whole window inside one hydraulic step (mostly)
+                elif kind < 0.55:
+                    en = max(0, st - rng.randint(1, hyd))      # end before start
+                else:
+                    en = st + rng.randint(1, dur)
+                if en == st:
+                    en = st + 1
+                leaks.append((10 + key, name, st, en))
+            lines = ["reset", "cfg %d %d 0 %d %d" % (hyd, s["rule"], dur, s["start_clock"])]
+            for key, name, st, en in leaks:
+                before = set(wn.control_name_list)
+                wn.get_node(name).add_leak(wn, area=0.0008, start_time=st, end_time=en)
+                new = [c for c in wn.control_name_list if c not in before]   # registration order
+                real = []
+                for cn in new:
+                    c = wn.get_control(cn)
+                    cond = c.condition
+                    acts = c.actions()
+                    tgt, attr = acts[0].target()
+                    real.append((type(c) is Control, type(cond).__name__, cond._relation is Comparison.eq, int(cond._threshold), bool(cond._repeat),
+                                 int(cond._first_time), len(acts), tgt is wn.get_node(name), attr, bool(acts[0]._value), int(c.priority),
+                                 c.epanet_control_type is _ControlType.presolve))
+                lines.append("leak %d %d %s" % (key, st, "none" if en is None else en))
+                leaks[[l[0] for l in leaks].index(key)] = (key, name, st, en, real)
+            lines.append("init " + " ".join("%d 0" % l[0] for l in leaks))
+            lines.append("run")
+            out = vlib.lean_run("Drivers/SchedDriver.lean", "\n".join(lines) + "\n")
+            mctl = [l.split() for l in out if l.startswith("leakctl")]
+            pos = 0
+            for key, name, st, en, real in leaks:
+                k = 2 if en is not None else 1
+                model = []
+                for f in mctl[pos:pos + k]:
+                    # leakctl id prio sim Rel thr rep key value else n
+                    model.append((True, "SimTimeCondition", f[4].endswith("eq"), int(f[5]), int(f[6]) != 0, 0, 1, int(f[7]) == key, "leak_status", int(f[8]) == 1, int(f[2]), f[3] == "sim" and int(f[10]) == 0))
+                pos += k
+                ctx.case(("leakctl", name, st, en), True)
+                ctx.count("leak-controls:" + ("tank" if name == "TK" else "junction") + (":no-end" if en is None else ""))
+                if real != model:
+                    nd += 1
+                    if nd <= 3:
+                        broken.append(Broken("correspondence", "Sched.Leak.ctls vs the controls add_leak registers",
+                                             "%s.add_leak(start_time=%s, end_time=%s): implementation %s, model %s" % (name, st, en, real, model)))
+            # (2) timeline
+            mrows = schedgen.parse_driver_runs([l for l in out if l.startswith(("row ", "end "))], 1)[0][0]
+            sim = wntr.sim.WNTRSimulator(wn)
+            res = sim.run_sim()
+            ld = res.node["leak_demand"]
+            times = [int(t) for t in ld.index]
+            ctx.count("leak-timeline-runs")
+            if times != [t for t, _ in mrows]:
+                nd += 1
+                if nd <= 3:
+                    broken.append(Broken("correspondence", "Sched.runSim on the leak configuration vs WNTRSimulator accepted times",
+                                         "leaks %s hyd %d: implementation %s, model %s" % ([(l[1], l[2], l[3]) for l in leaks], hyd, times[:14], [t for t, _ in mrows][:14])))
+            for key, name, st, en, _ in leaks:
+                for t in times:
+                    on = st <= t and not (en is not None and st <= en <= t)
+                    active = float(ld.loc[t, name]) > 1e-9
+                    if active != on:
+                        failures.append(Failure("leak-window-" + ("tank" if name == "TK" else "junction"),
+                                                "%s.add_leak(start_time=%d, end_time=%s): at reported time %d the leak is %s, the window says %s"
+                                                % (name, st, en, t, "active" if active else "inactive", "on" if on else "off"),
+                                                {"hyd": hyd, "duration": dur, "leaks": [(l[1], l[2], l[3]) for l in leaks], "time": t, "times": times}))
+                        break
+                for inst in ([st] + ([en] if en is not None and st < en else [])):
+                    if inst <= times[-1] and inst not in times:
+                        failures.append(Failure("leak-instant-not-a-time-step", "%s.add_leak(start_time=%d, end_time=%s): the instant %d is not a solved time (times %s)"
+                                                % (name, st, en, inst, times[:14]), {"hyd": hyd, "duration": dur, "leaks": [(l[1], l[2], l[3]) for l in leaks], "times": times}))
+        ctx.cov["leak_control_disagreements"] = nd
+
     def _rule_eq_oracle(self, ctx, failures):
         """rules with an `=` time premise against the rule-grid specification: the rule acts at the first positive rule
         timestep r >= its instant c (r - rule_step < c <= r), and r is a solved time -- also when a simple control on another
@@ -572,6 +669,7 @@ class C04(Check):
         self._rule_grid_oracle(ctx, failures)
         self._rule_priority_oracle(ctx, failures)
         self._rule_eq_oracle(ctx, failures)
+        self._leak_controls_corr(ctx, failures, broken)
         return failures, broken
 
     def search(self, ctx, broken):
